@@ -1,4 +1,5 @@
 import DroopModel.Report
+import DroopModel.Blt
 /-!
 # ElectionRecord.json(): the "actions" array (record.py `json()`, `json.dumps(self, cls=ValueEncoder, sort_keys=True, indent=2)`)
 
@@ -68,24 +69,39 @@ def jsonCand (strV : α → String) (ind : String) (ever : Bool) (e : Nat × Str
     (fun r => kv r.1 (value r.2.1))
   ind ++ jsonStr (toString e.1) ++ ": {\n" ++ ",\n".intercalate items ++ "\n" ++ ind ++ "}"
 
+/-- record.py `action()`: every action has these keys (key, what it shows) ... -/
+def actionBaseKeys : List (String × String) := [("tag", "tag"), ("msg", "msg"), ("round", "E.round")]
+/-- ... a non-log action also these ... -/
+def actionSnapKeys : List (String × String) := [("cstate", "C.cState()"), ("votes", "sum"), ("quota", "E.quota")]
+/-- ... and the keys the rule's method adds (electionmethods.py `MethodMeek.action`, `MethodWIGM.action`; QPQ adds none).
+    harness/gen_actions.py regenerates the three tables from the source; the kernel checks them equal on every C18 run. -/
+def actionHookKeys : Method → List (String × String)
+  | .meek => [("residual", "E.residual"), ("surplus", "E.surplus")]
+  | .wigm => [("nt_votes", "E.exhausted"), ("surplus", "E.surplus")]
+  | .qpq => [("votes", "E.votes")]            -- qpq.py overwrites the total with its own `E.votes`
+
 def jsonAction (strV : α → String) (m : Method) (ever : List Nat) (msg : String) (a : Act α) : String :=
   let ind := "    "
   let kv (k v : String) := ind ++ "  " ++ jsonStr k ++ ": " ++ v
-  let items : List String :=
-    match a.snap with
-    | none => [kv "msg" (jsonStr msg), kv "round" (toString a.round), kv "tag" (jsonStr a.tag)]
-    | some sn =>
-      let cs := sn.cs.mergeSort (fun x y => x.1 ≤ y.1)
-      [ind ++ "  " ++ jsonStr "cstate" ++ ": {\n"
-          ++ ",\n".intercalate (cs.map (fun e => jsonCand strV (ind ++ "    ") (ever.contains e.1) e)) ++ "\n" ++ ind ++ "  }",
-       kv "msg" (jsonStr msg)]
-      ++ (if m == .wigm then [kv "nt_votes" (jsonStr (strV sn.x1))] else [])
-      ++ [kv "quota" (jsonStr (strV sn.quota))]
-      ++ (if m == .meek then [kv "residual" (jsonStr (strV sn.x1))] else [])
-      ++ [kv "round" (toString a.round)]
-      ++ (if m == .qpq then [] else [kv "surplus" (jsonStr (strV sn.x2))])
-      ++ [kv "tag" (jsonStr a.tag), kv "votes" (jsonStr (strV sn.votes))]
-  ind ++ "{\n" ++ ",\n".intercalate items ++ "\n" ++ ind ++ "}"
+  let keys : List (String × String) := (match a.snap with
+    | some _ => (actionHookKeys m).foldl (fun (d : List (String × String)) (e : String × String) => dictSet d e.1 e.2) (actionBaseKeys ++ actionSnapKeys)
+    | none => actionBaseKeys).mergeSort (fun x y => x.1 ≤ y.1)
+  let value (src : String) : String :=
+    if src == "tag" then jsonStr a.tag
+    else if src == "msg" then jsonStr msg
+    else if src == "E.round" then toString a.round
+    else match a.snap with
+      | none => "null"
+      | some sn =>
+        if src == "C.cState()" then
+          "{\n" ++ ",\n".intercalate ((sn.cs.mergeSort (fun x y => x.1 ≤ y.1)).map
+            (fun e => jsonCand strV (ind ++ "    ") (ever.contains e.1) e)) ++ "\n" ++ ind ++ "  }"
+        else if src == "sum" || src == "E.votes" then jsonStr (strV sn.votes)
+        else if src == "E.quota" then jsonStr (strV sn.quota)
+        else if src == "E.residual" || src == "E.exhausted" then jsonStr (strV sn.x1)
+        else if src == "E.surplus" then jsonStr (strV sn.x2)
+        else "null"
+  ind ++ "{\n" ++ ",\n".intercalate (keys.map (fun k => kv k.1 (value k.2))) ++ "\n" ++ ind ++ "}"
 
 /-- ids shown elected ("e" or "E") in the snapshot of an action -/
 def electedIn (a : Act α) : List Nat :=
